@@ -263,7 +263,14 @@ func (c *c43chain) tx(s c43shape) (*types.Transaction, []c43log) {
 }
 
 func (c *c43chain) commit(txs []*types.Transaction, expect []c43log, shapes []string) {
-	b, err := c.l.AddTxs(txs...)
+	b := c.l.MakeBlock(txs)
+	var err error
+	if len(txs) == 0 {
+		// an empty block's state root is not compared by AddBlock: skip the separate pre-execution
+		err = c.l.ls.AddBlock(b, nil, common.UINT256_EMPTY)
+	} else {
+		err = c.l.AddBlock(b)
+	}
 	c.r.Need(err == nil, "fixture: AddBlock %d failed: %v (%s)", len(c.blocks), err, c.y)
 	blk := &c43block{expect: expect, shapes: shapes}
 	for _, t := range b.Transactions {
@@ -593,7 +600,11 @@ func c43run(r *vh.Run, y c43layout) {
 		c.checkAll()
 	})
 	if p != "" {
-		c.viol("panic", "panic at tip %d: %s", len(c.blocks)-1, p)
+		key := "panic:mid-section"
+		if (len(c.blocks)+1)%BloomBitsBlocks == 0 {
+			key = "panic:committing-last-block-of-section"
+		}
+		c.viol(key, "panic at tip %d: %s", len(c.blocks)-1, p)
 	}
 	if c.differ > 0 {
 		r.Add("receipt_model_differences", c.differ)
@@ -636,6 +647,28 @@ func c43layouts(r *vh.Run) []c43layout {
 	return out
 }
 
+// c43stride reorders the layouts by a fixed stride coprime to their number, so
+// that a run stopped by its deadline has seen layouts from all over the
+// product rather than one corner of it (still the same set when complete).
+func c43stride(in []c43layout) []c43layout {
+	n := len(in)
+	step := 389
+	for n%step == 0 {
+		step += 2
+	}
+	out := make([]c43layout, 0, n)
+	seen := make([]bool, n)
+	for i, j := 0, 0; i < n; i++ {
+		for seen[j] {
+			j = (j + 1) % n
+		}
+		seen[j] = true
+		out = append(out, in[j])
+		j = (j + step) % n
+	}
+	return out
+}
+
 func TestVerif_C43(t *testing.T) {
 	r := vh.Start(t, "C43", "bloom")
 	defer r.Finish()
@@ -652,7 +685,12 @@ func TestVerif_C43(t *testing.T) {
 		return
 	}
 	ls := c43layouts(r)
-	r.Set("layouts", int64(len(ls)))
+	if r.Thorough() {
+		ls = c43stride(ls)
+	}
+	if r.R.Shard == 0 {
+		r.Set("layouts", int64(len(ls)))
+	}
 	done := int64(0)
 	for i, y := range ls {
 		if !r.Mine(i) {
